@@ -252,7 +252,7 @@ def run(analysis: Analysis, tier: str) -> RuleResult:
             if r["kind"] == "raise":
                 res.add("C17-R2", f"{TO_MSG} / short or odd topics are rejected, not raised", False, "mysensors/gateway_mqtt.py", r["exc"], r["witness"])
         if not accepted or not rejected:
-            raise AnalysisError("C17: topic -> command has no accepting or no rejecting path")
+            res.add("C17-R2", f"{TO_MSG} / accepts the configured prefix followed by five levels and rejects everything else", False, "mysensors/gateway_mqtt.py", f"{len(accepted)} accepting and {len(rejected)} rejecting paths")
         for r in accepted:
             ok_ack = (r["ack"] == "1" and r["qos_pos"]) or (r["ack"] == "0" and r["qos_nonpos"])
             res.add("C17-R1", f"{TO_MSG} / level 4 (ack) is \"1\" exactly when QoS > 0", ok_ack, "mysensors/gateway_mqtt.py", f"ack {r['ack']!r} with qos>0 known {r['qos_pos']}, qos<=0/None known {r['qos_nonpos']}", r["witness"] if not ok_ack else None)
